@@ -11,15 +11,16 @@ static mcx::Report R;
 
 struct Traj { std::vector<double> q, p, charge; };
 
-static double centroid(const PhaseSpace& ps, unsigned n, double& cq, double& cp) {
-    const float* d = ps.getData(); double s = 0, sq = 0, sp = 0;
+static double centroid(const PhaseSpace& ps, unsigned n, double& cq, double& cp, unsigned bunch = 0) {
+    const float* d = ps.getData() + (size_t)bunch * n * n; double s = 0, sq = 0, sp = 0;
     for (unsigned x = 0; x < n; x++) for (unsigned y = 0; y < n; y++) { double v = d[(size_t)x * n + y]; s += v; sq += v * ps.q(x); sp += v * ps.p(y); }
     cq = sq / s; cp = sp / s;
     return s;
 }
 
-static Traj run(unsigned n, unsigned steps, float sx, float sy, unsigned it, double q0, double p0, double w, bool linear, bool& finite) {
-    set_size(n, 1);
+static Traj run(unsigned n, unsigned steps, float sx, float sy, unsigned it, double q0, double p0, double w, bool linear, bool& finite, unsigned nb = 1, unsigned bsel = 0) {
+    set_size(n, nb);
+    const std::vector<float> fill = even_filling(nb);
     const float pq = 12;
     // scales as main(): Meter scale = natural bunch length, ElectronVolt scale = absolute energy spread
     const double E0 = 1.3e9, sE = 4.7e-4, dE = sE * E0, frev = 9e6, H = 50, VRF = 1e6, fs = 4.5e4;
@@ -28,11 +29,13 @@ static Traj run(unsigned n, unsigned steps, float sx, float sy, unsigned it, dou
     const double dt = 1.0 / (fs * steps), revpart = frev * dt;
     const float angle = 2 * M_PI / steps;
     const float qc = -sx * pq / (n - 1), pc = -sy * pq / (n - 1), h = pq / 2;
-    std::vector<float> dat((size_t)n * n);
-    auto g1 = mkps(qc - h, qc + h, pc - h, pc + h, {1.f}, nullptr, 1, bl, dE);
-    for (unsigned x = 0; x < n; x++) for (unsigned y = 0; y < n; y++) dat[(size_t)x * n + y] = (float)std::exp(-0.5 * ((g1->q(x) - q0) * (g1->q(x) - q0) + (g1->p(y) - p0) * (g1->p(y) - p0) * 1.3) / (w * w));
+    std::vector<float> dat((size_t)n * n * nb);
+    auto g1 = mkps(qc - h, qc + h, pc - h, pc + h, fill, nullptr, 1, bl, dE);
+    // every bunch holds the blob; bunches other than the selected one are mirrored through the origin (their data differs, their orbit is the mirrored one)
+    for (unsigned b = 0; b < nb; b++) { const double sg = (b == bsel) ? 1 : -1;
+        for (unsigned x = 0; x < n; x++) for (unsigned y = 0; y < n; y++) dat[((size_t)b * n + x) * n + y] = (float)std::exp(-0.5 * ((g1->q(x) - sg * q0) * (g1->q(x) - sg * q0) + (g1->p(y) - sg * p0) * (g1->p(y) - sg * p0) * 1.3) / (w * w)); }
     std::copy(dat.begin(), dat.end(), g1->getData());
-    auto g2 = mkps(qc - h, qc + h, pc - h, pc + h, {1.f}, dat.data(), 1, bl, dE), g3 = mkps(qc - h, qc + h, pc - h, pc + h, {1.f}, dat.data(), 1, bl, dE);
+    auto g2 = mkps(qc - h, qc + h, pc - h, pc + h, fill, dat.data(), 1, bl, dE), g3 = mkps(qc - h, qc + h, pc - h, pc + h, fill, dat.data(), 1, bl, dE);
     auto itt = (SourceMap::InterpolationType)it;
     Identity wm(g1, g2, nullptr);
     std::unique_ptr<RFKickMap> rf;
@@ -41,11 +44,11 @@ static Traj run(unsigned n, unsigned steps, float sx, float sy, unsigned it, dou
     std::vector<float> slip = {angle, 0.f, 0.f};
     DriftMap dr(g1, g3, slip, (float)E0, itt, false, nullptr);
     Identity fp(g3, g1, nullptr);
-    Traj t; double cq, cp; t.charge.push_back(centroid(*g1, n, cq, cp)); t.q.push_back(cq); t.p.push_back(cp);
+    Traj t; double cq, cp; t.charge.push_back(centroid(*g1, n, cq, cp, bsel)); t.q.push_back(cq); t.p.push_back(cp);
     finite = true;
     for (unsigned k = 0; k < steps; k++) {
         wm.apply(); rf->apply(); dr.apply(); fp.apply();
-        t.charge.push_back(centroid(*g1, n, cq, cp)); t.q.push_back(cq); t.p.push_back(cp);
+        t.charge.push_back(centroid(*g1, n, cq, cp, bsel)); t.q.push_back(cq); t.p.push_back(cp);
         if (!std::isfinite(cq) || !std::isfinite(cp)) { finite = false; break; }
     }
     return t;
@@ -64,20 +67,23 @@ int main(int argc, char** argv) {
     const double starts[][2] = {{1.0, 0.0}, {0.0, -1.2}, {-0.8, 0.7}, {0.5, 1.0}, {-1.1, -0.4}, {0.9, -0.9}, {0.0, 0.6}, {-0.6, 0.0}, {0.3, 0.25}};
     const unsigned nstarts = T ? 9 : 3;
     double worst_step = 0, worst_phase = 0, worst_shift = 0;
-    for (unsigned steps : stepss) for (unsigned n : ns) for (unsigned it : its) for (unsigned si = 0; si < nstarts; si++) for (int wi = 0; wi < 2; wi++) for (int model = 0; model < 2; model++) {
+    for (unsigned steps : stepss) for (unsigned n : ns) for (unsigned it : its) for (unsigned si = 0; si < nstarts; si++) for (int wi = 0; wi < 2; wi++) for (int model = 0; model < 2; model++) for (unsigned bv = 0; bv < 3; bv++) {
+        // bunch axis: single bunch; the second of two bunches; the third of three (every bunch of a train rotates like a single bunch)
+        const unsigned nb = bv + 1, bsel = bv;
+        if (bv && (si != 0 || wi != 0)) continue;
         const bool linear = model == 0;
         const double scale = linear ? 1.0 : 0.25;     // small amplitudes for the sinusoidal model
         const double q0 = starts[si][0] * scale, p0 = starts[si][1] * scale, w = wi ? 0.9 : 0.6;
-        std::string kase = mcx::Desc()("steps", steps)("n", n)("it", it)("start", si)("width", wi)("rf", linear ? "linear" : "sin").str();
+        std::string kase = mcx::Desc()("steps", steps)("n", n)("it", it)("start", si)("width", wi)("rf", linear ? "linear" : "sin")("bunch", std::to_string(bsel) + "of" + std::to_string(nb)).str();
         if (!R.mine(kase)) continue;
         if (R.out_of_time()) { R.not_completed = kase; goto done; }
         const double a = 2 * M_PI / steps, dq = 12.0 / (n - 1);
         Traj ref; bool have_ref = false;
         for (float sx : shifts) for (float sy : shifts) {
-            bool fin; Traj t = run(n, steps, sx, sy, it, q0, p0, w, linear, fin);
+            bool fin; Traj t = run(n, steps, sx, sy, it, q0, p0, w, linear, fin, nb, bsel);
             const std::string sub = kase + " shift=" + mcx::fstr(sx) + "," + mcx::fstr(sy);
             R.eval(sub, mcx::fnv(t.q.data(), 8 * t.q.size(), mcx::fnv(t.p.data(), 8 * t.p.size(), mcx::fnvs(sub))), false);
-            const std::string key = std::string("C03/") + (linear ? "linear" : "sin") + ((sx != 0 || sy != 0) ? (sx != sy ? "/shifted-unequal" : "/shifted-equal") : "/centred");
+            const std::string key = std::string("C03/") + (linear ? "linear" : "sin") + (bv ? "/bunch>0" : "") + ((sx != 0 || sy != 0) ? (sx != sy ? "/shifted-unequal" : "/shifted-equal") : "/centred");
             if (!fin) { R.violate(key + "/non-finite", kase, "centroid not finite, shift " + mcx::fstr(sx) + "," + mcx::fstr(sy)); continue; }
             const double c0q = t.q[0], c0p = t.p[0], r0 = std::hypot(c0q, c0p);
             // the statement is about distributions that stay inside the grid: low interpolation orders smear the charge until it reaches the border;
@@ -114,6 +120,6 @@ int main(int argc, char** argv) {
     }
 done:
     R.numbers["worst_step_error_over_tol"] = worst_step; R.numbers["worst_phase_error_over_tol"] = worst_phase; R.numbers["worst_shift_dependence_over_tol"] = worst_shift;
-    R.bound_done("steps x n x it x starts x 2 widths x {linear, sinusoidal} x all (sx,sy) grid shifts, every step of one period");
+    R.bound_done("steps x n x it x starts x 2 widths x {linear, sinusoidal} x {single bunch, 2nd of 2, 3rd of 3} x all (sx,sy) grid shifts, every step of one period");
     return R.finish();
 }
